@@ -68,6 +68,9 @@ def getFirst (k : List UInt8) : List (List UInt8 × DJ) → Option DJ
   | [] => none
   | (k', v) :: r => if k' = k then some v else getFirst k r
 
+/-- every key of the first list occurs in the second (`other.iter().all(|(k, _)| self.get(&k).is_some())`) -/
+def keysIn (ks ms : List (List UInt8 × DJ)) : Bool := ks.all fun p => (getFirst p.1 ms).isSome
+
 /-- IEEE equality of finite doubles given by their bits: +0.0 and -0.0 are equal -/
 def f64Eq (a b : Nat) : Bool := a == b || ((a == 0 || a == 2 ^ 63) && (b == 0 || b == 2 ^ 63))
 
@@ -86,8 +89,9 @@ def DJ.depthM : List (List UInt8 × DJ) → Nat
 end
 
 mutual
-/-- `impl PartialEq for Value` (objects: `Object::eq` as repaired: same length, and every key of
-    either object is looked up in both); the first argument bounds the nesting -/
+/-- `impl PartialEq for Value` (objects: `Object::eq` as repaired: same length, the first member of
+    every key of the left object equals the first one of that key in the right object, and every key
+    of the right object occurs in the left one); the first argument bounds the nesting -/
 def eqv : Nat → DJ → DJ → Bool
   | 0, _, _ => false
   | _+1, .null, .null => true
@@ -96,7 +100,7 @@ def eqv : Nat → DJ → DJ → Bool
   | _+1, .f64 a, .f64 b => f64Eq a b
   | _+1, .str a, .str b => a == b
   | f+1, .arr xs, .arr ys => eqvL f xs ys
-  | f+1, .obj ms, .obj ns => ms.length == ns.length && eqvKeys f ms ns ms && eqvKeys f ns ms ns
+  | f+1, .obj ms, .obj ns => ms.length == ns.length && eqvKeys f ms ns ms && keysIn ns ms
   | _+1, _, _ => false
 def eqvL : Nat → List DJ → List DJ → Bool
   | _, [], [] => true
